@@ -426,6 +426,12 @@ func main() {
 	// ---- (a)
 	types := allTypes()
 	pvs := []int{0, 1, 2, 3, 4, 255}
+	if r.Thorough() {
+		pvs = pvs[:0]
+		for v := 0; v < 256; v++ {
+			pvs = append(pvs, v)
+		}
+	}
 	type fr struct{ F, R uint32 }
 	frs := []fr{{coordFreeze, coordRestriction}, {disabled, disabled}, {100, 200}}
 	if config.MainNetCrossChainUTXOFreezeHeight != coordFreeze || config.MainNetCrossChainUTXORestrictionHeight != coordRestriction {
@@ -540,7 +546,7 @@ func main() {
 	r.Finish(evid.Coverage{
 		"evaluations":         evalsA + int64(len(cb)) + int64(ctxN),
 		"distinct_nontrivial": classes.Len() + cfgClasses.Len(),
-		"rule": "(a) every constructible transaction type x payload versions {0,1,2,3,4,255} x 10 reference sets (prefix mixes) x heights {0,F-1,F,F+1,mid,R-1,R,R+1,MaxUint32} for (F,R) in {mainnet constants, disabled, (100,200)}, verdict of the real policy helper == table written from the statement; " +
+		"rule": "(a) every constructible transaction type x payload versions {0,1,2,3,4,255} (thorough: all 256) x 10 reference sets (prefix mixes) x heights {0,F-1,F,F+1,mid,R-1,R,R+1,MaxUint32} for (F,R) in {mainnet constants, disabled, (100,200)}, verdict of the real policy helper == table written from the statement; " +
 			"(b) SetupConfig on a config file for 12 ActiveNet spellings x 5x5 overrides of both heights (+ InstantBlock branch), in worker subprocesses: mainnet names -> coordinated constants and the policy is effective at them, other names -> disabled and no probe height rejects. " +
 			"(c) complete ContextCheck on a light node for signed, otherwise fully valid TransferAsset transactions spending {cross-chain, standard, both} real unspent outputs x 6 heights x {mainnet heights, disabled}: forbidden => rejected, everything else accepted. " +
 			"non-trivial = distinct (height band, type class, verdict, error) classes over cases that spend a cross-chain UTXO + distinct resulting configurations",
